@@ -6,7 +6,10 @@ import (
 	"errors"
 	"fmt"
 	"io"
+	"runtime"
+	"sort"
 	"strings"
+	"sync"
 	"time"
 
 	"mellium.im/xmpp"
@@ -351,6 +354,61 @@ func (c *ctx) header(in string, receive bool) {
 	}
 }
 
+// accepted reports whether the real session treats chardata s between top-level elements as
+// a keep-alive: Serve on `s</stream:stream>` returns nil.
+func accepted(s string) bool {
+	res := Serve(NSClient, LocalJID, RemoteJID, []byte(s+"</stream:stream>"), nil, nil)
+	return res.Err == nil && res.Panic == "" && !res.Stall
+}
+
+// Facts regenerates lean/XmppModel/Generated/C08.lean: the exact set of code points the real
+// serve path accepts as white space between top-level elements, obtained by running a real
+// session on the chardata of every single code point U+0000..U+10FFFF (surrogates excluded).
+func Facts(repo string) (string, error) {
+	nw := runtime.NumCPU()
+	if nw > 16 {
+		nw = 16
+	}
+	const max = 0x110000
+	found := make([][]int, nw)
+	var wg sync.WaitGroup
+	for w := 0; w < nw; w++ {
+		w := w
+		wg.Add(1)
+		go func() {
+			defer wg.Done()
+			for r := w; r < max; r += nw {
+				if r >= 0xD800 && r <= 0xDFFF {
+					continue
+				}
+				if accepted(string(rune(r))) {
+					found[w] = append(found[w], r)
+				}
+			}
+		}()
+	}
+	wg.Wait()
+	var all []int
+	for _, f := range found {
+		all = append(all, f...)
+	}
+	sort.Ints(all)
+	var sb strings.Builder
+	sb.WriteString("-- GENERATED by `harness facts C08` (real sessions on every code point); do not edit.\n")
+	sb.WriteString("namespace XmppModel.Generated.C08\n\n")
+	if len(all) > 64 {
+		sb.WriteString("def topWhitespace : Option (List Nat) := none\n")
+	} else {
+		el := make([]string, len(all))
+		for i, v := range all {
+			el[i] = fmt.Sprint(v)
+		}
+		fmt.Fprintf(&sb, "/-- every code point c for which a session whose peer sends the single character c between\ntop-level elements goes on serving (all 1112064 scalar values tried) -/\ndef topWhitespace : Option (List Nat) := some [%s]\n", strings.Join(el, ", "))
+	}
+	sb.WriteString("\nend XmppModel.Generated.C08\n")
+	return sb.String(), nil
+}
+
 // ---- generators ----------------------------------------------------------------
 
 // item alphabet of the small-scope enumeration: byte fragments at top level
@@ -369,6 +427,14 @@ var topItems = []string{
 	`<?pi top?>`,
 	`<!DOCTYPE x>`,
 	`junk`,
+	"\u00a0",
+	"\u0085",
+	" \u3000 ",
+	"\u200b",
+	"\ufeff",
+	"\u2028\n",
+	"\v",
+	"\f",
 	`<stream:error><host-gone xmlns="urn:ietf:params:xml:ns:xmpp-streams"/></stream:error>`,
 	`<stream:features/>`,
 	`<stream:stream xmlns="jabber:client" xmlns:stream="http://etherx.jabber.org/streams">`,
@@ -437,6 +503,10 @@ func genElement(rnd *common.Rand, depth int, dirtyOK bool) string {
 	return sb.String()
 }
 
+// chardata between elements: XML white space, Unicode-only white space, zero-width and
+// format characters, controls, text
+var wsAlphabet = []string{" ", "\n", "\t \r\n", " ", "\n", "\r", "\t", "\u00a0", "\u0085", "\u1680", "\u2000", "\u2003", "\u2028", "\u2029", "\u202f", "\u205f", "\u3000", "\u200b", "\u200d", "\ufeff", "\u180e", "\v", "\f", " \u00a0", "\u3000\n", "x", " x "}
+
 func genBody(rnd *common.Rand, maxItems int) string {
 	var sb strings.Builder
 	n := 1 + rnd.Intn(maxItems)
@@ -444,11 +514,11 @@ func genBody(rnd *common.Rand, maxItems int) string {
 	for i := 0; i < n; i++ {
 		switch k := rnd.Intn(20); {
 		case k < 3:
-			sb.WriteString([]string{" ", "\n", "\t \r\n"}[rnd.Intn(3)])
+			sb.WriteString(wsAlphabet[rnd.Intn(len(wsAlphabet))])
 		case k < 16:
 			sb.WriteString(genElement(rnd, 0, dirty && rnd.Chance(1, 4)))
 		case dirty:
-			sb.WriteString(topItems[10+rnd.Intn(7)])
+			sb.WriteString(topItems[10+rnd.Intn(len(topItems)-10)])
 		default:
 			sb.WriteString(" ")
 		}
